@@ -14,19 +14,47 @@ implication and its own serializer against the real json module.
 import json
 
 from vlib.api import *
+from vlib import pelbuild as pb
+from vlib.stubs import FakeJson, World, Namespace, ARG_DEFAULTS, run_main, patched
+from pel.datastream import DataStream
 from pel.peltool import peltool
+from pel.peltool.config import Config
 
 FUNCTIONS = ["pel.peltool.peltool.prettyPrint"]
 
 OTHER = '{:, a[]}'          # class 'o': one JSON text character each; '{' matters to prettyPrint
-CLASSES = {"q": '"', "b": "\\", "e": "é", "o": OTHER}
+CLASSES = {"q": '"', "b": "\\", "e": "é", "u": "\u2028", "o": OTHER}
+
+
+def _capture_dumps_kwargs():
+    """the keyword arguments the tool really passes to json.dumps for a document (parsePEL) and for a
+    list (listOption): the harness serializer follows them, so that a change of those arguments and the
+    alignment pass are checked *together* (they only have to be right in combination)"""
+    kws = {}
+    fj = FakeJson()
+    pel = pb.PEL(pb.UD(b'{"a": 1}\0\0\0\0', sub=1))
+    cfg = Config()
+    cfg.every_pel = True
+    with patched(peltool, json=fj, prettyPrint=lambda t, *a, **k: t):
+        peltool.parsePEL(DataStream(pel, byte_order="big", is_signed=False), cfg, False)
+    kws[34] = dict(fj.dumped[-1].kw)
+    w = World(files=[("a", pel)])
+    fj2 = FakeJson()
+    run_main(peltool, w, Namespace(**dict(ARG_DEFAULTS, path="/pels", list=True, every_pel=True)), fj=fj2)
+    kws[29] = dict(fj2.dumped[-1].kw) if fj2.dumped else {"indent": 4}
+    return kws
+
+
+DUMPS_KW = _capture_dumps_kwargs()
 SHAPES = ["flat", "list", "nested", "empty", "lod"]
-KEYPATS = ["q", "b", "e", "o", "qq", "qb", "qo", "bq", "bb", "bo", "oq", "ob", "oo", "eq", "qe", "oe",
+KEYPATS = ["q", "b", "e", "o", "u", "qq", "qb", "qo", "bq", "bb", "bo", "oq", "ob", "oo", "eq", "qe", "oe", "uo", "qu",
            "qoq", "oqo", "obq"]
 CASES = ["%s:%s:%d" % (sh, kp, sp) for sh in SHAPES for kp in KEYPATS for sp in (34, 29)]
-QUICK = ["flat:qo:34", "flat:b:34", "flat:oq:29", "nested:qo:34", "list:bq:34", "lod:ob:29", "flat:e:34", "empty:qq:29",
+QUICK = ["flat:u:34", "list:uo:29", "flat:qo:34", "flat:b:34", "flat:oq:29", "nested:qo:34", "list:bq:34", "lod:ob:29", "flat:e:34", "empty:qq:29",
          "flat:oqo:34", "list:oo:29"]
-HARNESSES = [{"fn": "h_lines", "cases": CASES, "quick_cases": QUICK, "timeout": {"quick": 90, "thorough": 300}}]
+HARNESSES = [{"fn": "h_lines", "cases": CASES, "quick_cases": QUICK, "timeout": {"quick": 90, "thorough": 300}},
+             {"fn": "h_framing", "cases": ["fwd", "rev"], "timeout": {"quick": 90, "thorough": 300}}]
+FUNCTIONS += ["peltool.extractAllPELsData (JSON array framing)", "json.dumps keyword arguments at peltool.py call sites"]
 BOUNDS = {"keys": "length 1..3 with a concrete class pattern per case (quote / backslash / non-ASCII e-acute / one of "
                   "'{:, a[]}' symbolic)", "string values": "length 0..2, every character symbolic over the full alphabet "
                   "{\" \\ e-acute { : , space a [ ] }}", "shapes": "{k: v}, {k: [s, s]}, {k: {k2: v}}, {k: []}, [{k: v}]",
@@ -42,7 +70,7 @@ class HarnessBug(Exception):
     pass
 
 
-def esc(cps):
+def esc(cps, ascii_only=True):
     """JSON string token (with quotes) for the code points: forks on the escape class of symbolic chars"""
     out = [34]
     for c in cps:
@@ -50,8 +78,10 @@ def esc(cps):
             out += [92, 34]
         elif c == 92:
             out += [92, 92]
-        elif c == 0xE9:
+        elif c == 0xE9 and ascii_only:
             out += [ord(x) for x in "\\u00e9"]
+        elif c == 0x2028 and ascii_only:
+            out += [ord(x) for x in "\\u2028"]
         else:
             out.append(c)
     out.append(34)
@@ -69,7 +99,11 @@ def h_lines() -> bool:
     """
     shape, kp, sp = CASE.split(":")
     sp = int(sp)
-    full = '"\\é' + OTHER
+    kw = DUMPS_KW[sp]
+    if set(kw) - {"indent", "ensure_ascii"} or kw.get("indent") != 4:
+        raise HarnessBug("json.dumps is called with arguments this harness does not model: %r" % (kw,))
+    ascii_only = bool(kw.get("ensure_ascii", True))
+    full = '"\\\u2028' + OTHER
     kcps, kparts = [], []
     for i, cl in enumerate(kp):
         cps, s = sym_chars("k%d" % i, 1, CLASSES[cl])
@@ -81,9 +115,9 @@ def h_lines() -> bool:
     for cand in range(3):
         if lv == cand:
             vcps = v_all[:cand]
-    k2cps, k2s = sym_chars("k2", 1, full)
+    k2cps, k2s = sym_chars("k2", 1, '"\\a')
     I = [32] * 4
-    ktok, vtok, k2tok = esc(kcps), esc(vcps), esc(k2cps)
+    ktok, vtok, k2tok = esc(kcps, ascii_only), esc(vcps, ascii_only), esc(k2cps, ascii_only)
     # (line code points, p) ; p = index just after the key's '":' or None
     if shape == "flat":
         lines = [([123], None), (I + ktok + [58, 32] + vtok + [44], 4 + len(ktok) + 1),
@@ -130,7 +164,7 @@ def h_lines() -> bool:
         if shape in ("flat", "empty") and K == K2:
             doc = None      # duplicate key: the text has two members, a dict one - not comparable
         if doc is not None:
-            real = json.dumps(doc, indent=4)
+            real = json.dumps(doc, **kw)
             if real != text:
                 raise HarnessBug("serializer mismatch: %r vs %r" % (real, text))
             try:
@@ -142,3 +176,39 @@ def h_lines() -> bool:
                 raise HarnessBug("structural oracle passed but json.loads differs")
             conds.append(back == doc)
     return verdict(sym_all(conds), obs={"text": text, "out": out})
+
+
+def h_framing() -> bool:
+    """
+    post: _
+    """
+    # --all-pels prints one JSON array whatever subset of the files is selected
+    flags = [sym_int("f%d" % i, 0, 1) for i in range(3)]          # 1 = hidden (filtered by the default selection)
+    files = []
+    for i, fl in enumerate(flags):
+        uhflags = sym_ite(fl == 1, 0x6800, 0xA800)
+        files.append(("pel%d" % i, pb.PEL(pb.UD(b"\x01\x02", comp=0x4321), ph=dict(eid=0x50000001 + i), uh=dict(flags=uhflags))))
+    w = World(files=files)
+    ns = Namespace(**dict(ARG_DEFAULTS, path="/pels", all=True, reverse=(CASE == "rev")))
+    try:
+        status = run_main(peltool, w, ns)
+    except Exception as e:
+        return verdict(False, obs={"exception": repr(e)})
+    out = w.stdout()
+    ends = [e[2] for e in w.events if e[0] == "stdout"]
+    # expected token stream: "[" (doc ("," doc)*)? [""] "]"
+    docs = [o for o in out if hasattr(o, "obj")]
+    exp = ["["]
+    for i, d in enumerate(docs):
+        if i:
+            exp.append(",")
+        exp.append(d)
+    if docs:
+        exp.append(())          # the bare print() after the last document
+    exp.append("]")
+    nsel = sum(1 for fl in flags if fl == 0)
+    conds = [status == 0, len(out) == len(exp), len(docs) == nsel, w.stderr() == []]
+    if len(out) == len(exp):
+        for o, e in zip(out, exp):
+            conds.append(o is e if hasattr(e, "obj") else o == e)
+    return verdict(sym_all(conds), obs={"stdout": [o if not hasattr(o, "obj") else "<doc>" for o in out]})
